@@ -8,7 +8,7 @@
 (*   C06: J1 = ToJsonDoc(Parse(Materialize(J0))) equals J0                 *)
 (* and exports J0 so that the real serializer can be compared with it.     *)
 (***************************************************************************)
-EXTENDS DocSeeds, Serializers, PropsElem, Json
+EXTENDS DocSeeds, Annot, PropsElem, Json
 
 (* TLC orders record fields by the order in which their names were first seen: the tag
    field k of JSON values must be met before v (heterogeneous values are told apart by k) *)
@@ -52,6 +52,13 @@ Export ==
       d1 == InlineS(s0, s0, 8)
       j1 == IF ok /\ WellFormed(j0) THEN JsonOf(d1) ELSE JNull
       c06 == IF ok /\ WellFormed(j0) THEN C06_Clause(j0, j1) ELSE "ok"
-  IN PrintT(ToJson([doc |-> doc, ok |-> ok, j0 |-> j0, c03 |-> c03, c06 |-> c06]))
+      (* C19 on the model: every value the element builds belongs to its annotation *)
+      ann == IF ok THEN AnnotOf(e, <<>>) ELSE Ty("Any")
+      annNamed == IF ok THEN AnnotOf(e, ClassTable(doc)) ELSE Ty("Any")
+      m19 == ok /\ AllDefaultsValid(doc)
+             /\ \E i \in 1..NValues :
+                    LET r == Call(e, Values[i]) IN r.kind = "ok" /\ ~HasType(r.out, ann)
+  IN PrintT(ToJson([doc |-> doc, ok |-> ok, j0 |-> j0, c03 |-> c03, c06 |-> c06,
+                    annot |-> annNamed, m19 |-> m19]))
 Inv == Export
 =============================================================================
